@@ -257,10 +257,22 @@ func storeSites(pkgs ...*packages.Package) []site {
 				case *ssa.Store:
 					if o, ok := owner(x.Addr, 0); ok && !fresh(x.Addr) {
 						add(fn, "store", o, x.Pos())
+					} else if gl, isGlobal := baseOf(x.Addr, 0).(*ssa.Global); isGlobal && fn.Name() != "init" {
+						// a package-level variable is shared by every goroutine of the process
+						add(fn, "store-global", gl.Name(), x.Pos())
+					} else if un, isLoad := baseOf(x.Addr, 0).(*ssa.UnOp); isLoad && un.Op == token.MUL {
+						// an element of a package-level slice / a field behind a package-level pointer
+						if gl, isGlobal := un.X.(*ssa.Global); isGlobal && fn.Name() != "init" {
+							add(fn, "store-global", gl.Name(), x.Pos())
+						}
 					}
 				case *ssa.MapUpdate:
 					if o, ok := owner(x.Map, 0); ok {
 						add(fn, "map-update", o, x.Pos())
+					} else if un, isLoad := x.Map.(*ssa.UnOp); isLoad && un.Op == token.MUL {
+						if gl, isGlobal := un.X.(*ssa.Global); isGlobal && fn.Name() != "init" {
+							add(fn, "map-update-global", gl.Name(), x.Pos())
+						}
 					}
 				case *ssa.Call:
 					c := x.Call
